@@ -193,6 +193,13 @@ class Gen:
     def next_step(self, i: int, history: list[dict]) -> dict:
         rng, cfg = self.rng, self.cfg
         client = rng.randrange(cfg["n_clients"])
+        script = cfg.get("script") or []
+        if i < len(script):
+            sc = script[i]
+            out = list(range(self.next_slot, self.next_slot + MAX_OUT))
+            self.next_slot += MAX_OUT
+            return {"i": i, "c": client, "op": sc["op"], "args": list(sc["args"]), "p": sc.get("p"), "out": out,
+                    "mode": "typed"}
         if rng.random() < cfg["p_evict_step"]:
             return {"i": i, "c": client, "op": "$evict", "args": [], "p": {"which": rng.choice([1, 2, 3])}, "out": [],
                     "mode": "env"}
